@@ -16,12 +16,12 @@ def run(tier, seed):
         for c in cs:
             k = (c['fam'], c['ty'])
             per[k] = per.get(k, 0) + 1
-            if per[k] <= 10:
+            if per[k] <= 20:
                 keep.append(c)
         cs = keep
     b = V.build('release')
     wd = V.workdir('c14')
-    jobs = [{'cases': [C.strip(c) for c in sh], 'seeds': 8, 'hist_len': 1000, 'group': 4, 'verif_seed': seed, '_bin': b} for sh in V.shard(cs, V.NCPU * 2)]
+    jobs = [{'cases': [C.strip(c) for c in sh], 'seeds': 16 if th else 8, 'hist_len': 1000, 'group': 4, 'verif_seed': seed, '_bin': b} for sh in V.shard(cs, V.NCPU * 2)]
     events, meta = V.run_shards(None, 'c14', jobs, wd, 'c14', wall_timeout=7200)
     ver = V.Verdict('C14')
     calls = pairs = hist = replayed = 0
